@@ -2322,9 +2322,19 @@ impl<'a, R: FileManager> FrontendCtx<'a, R> {
         match e {
             Expr::Tpl(s) => {
                 if as_const {
+                    // the text chunks belong to the type as much as the placeholders do:
+                    // `d${x}d` as const is `d${string}d`, and `b` as const is the literal "b"
+                    if s.exprs.is_empty() {
+                        let text = s.quasis.iter().map(Self::tpl_quasi_text).collect::<String>();
+                        return Ok(Runtype::single_string_const(&text));
+                    }
                     let mut acc: Vec<TplLitTypeItem> = vec![];
 
-                    for it in &s.exprs {
+                    for (idx, quasi) in s.quasis.iter().enumerate() {
+                        acc.push(TplLitTypeItem::StringConst(Self::tpl_quasi_text(quasi)));
+                        let Some(it) = s.exprs.get(idx) else {
+                            continue;
+                        };
                         let ty = match it.as_ref() {
                             Expr::Call(_) => Ok(Runtype::string()),
                             _ => self.typeof_expr(it, as_const, file.clone()),
